@@ -30,8 +30,7 @@ def _internal_spellings() -> list[str]:
     try:
         from tumfl.Token import TokenType
         import tumfl.formatter as _fm
-        import tumfl.lexer as _lx
-        kws = set(getattr(_lx, "RESERVED_KEYWORDS", {})) | KEYWORDS | {"as", "is"}
+        kws = KEYWORDS | {"as", "is"}   # Lua's own reserved words (fixed list), NOT the running tree's table: a word the tree reserves by accident must stay in the pool
         for enum in (TokenType, getattr(_fm, "Separators", ())):
             for m in enum:
                 for sp in (m.value,):
